@@ -264,8 +264,8 @@ PROPS = {
  'assumptions': ['crypto/rand replaced by a fixed reader in the harness so that the RAKP 1 random number is an input',
                  'the session-less retry loop re-sends the buffer serialised once (first datagram captured; retries are the subject of C10)']},
     "C18": {
-        "claim": "conservation: for EVERY history of dials, session opens/closes and commands, each with ANY sequence of per-attempt outcomes (final code, temporary code, junk, lost), and from any starting counter values, the instrumentation model's counters change by exactly: command attempts = calls per name, command failures = calls that returned an error (incl. a response body that fails to decode), retries = runs of the retry closure beyond the first of each call, responses per completion code = valid responses received, session/connection open attempts and failures = opens tried/failed, gauges = opens minus closes (gauges_do_not_drift for matched histories). Proved by induction over histories with per-call laws by induction over the attempt list. The model's increments are tied to the code by comparing prometheus.DefaultGatherer deltas after real histories (real handshakes, real in-session and session-less commands with scripted replies, real failing dial) with the model's counters, letter for letter.",
-        "note": "trusted: Lean kernel; the instrumentation model Proto/Metrics.lean (hand-written from the Inc()/Dec() sites; tied by the gatherer-delta correspondence); the Prometheus client library (internally synchronised counters); the mapping from scripted reply letters to the abstract outcomes final/temp/junk/lost is the harness's (replies to other commands and undecodable replies are junk: not counted as responses); a retry-closure run whose Send fails because the context expired counts as a retry (the datagram was handed to the transport)",
+        "claim": "conservation: for EVERY history of dials, session opens/closes and commands, each with ANY sequence of per-attempt outcomes (final code, temporary code, junk, lost), and from any starting counter values, the instrumentation model's counters change by exactly: command attempts = calls per name, command failures = calls that returned an error (incl. a response body that fails to decode), retries = runs of the retry closure beyond the first of each call, responses per completion code = valid responses received, session/connection open attempts and failures = opens tried/failed, gauges = opens minus closes (gauges_do_not_drift for matched histories). Proved by induction over histories with per-call laws by induction over the attempt list. wire_accounting ties the abstract outcomes to the wire: an attempt's outcome is a function attOf of the session keys, the command and the BYTES of the reply, and for every in-session command and reply script the retry and failure counters move by what the byte-level loop model (tied to the code datagram for datagram, C10) transmits and returns. The model's increments are tied to the code by comparing prometheus.DefaultGatherer deltas after real histories (real handshakes, real in-session and session-less commands with scripted replies, real failing dial) with the model's counters, letter for letter.",
+        "note": "trusted: Lean kernel; the instrumentation model Proto/Metrics.lean (hand-written from the Inc()/Dec() sites; tied by the gatherer-delta correspondence); the Prometheus client library (internally synchronised counters); the mapping from scripted reply letters to the abstract outcomes final/temp/junk/lost in the hist scenario is the harness's (in Lean it is attOf, a function of the reply bytes, for in-session commands; replies to other commands and undecodable replies are junk: not counted as responses); a retry-closure run whose Send fails because the context expired counts as a retry (the datagram was handed to the transport)",
         "technique": "Lean 4 proof (conservation laws by induction over histories and attempt lists) + differential correspondence of Prometheus gatherer deltas",
         "ref": "§5 C18",
         "proofs": ["Bmc.Proofs.C18"],
